@@ -482,6 +482,15 @@ func (u *Unit) execCallback(p *Path, x *ssa.Call) {
 			}
 		}
 	}
+	// ghost: the k-th argument of the n-th call of f is cbarg(f, n, k) (references only), so that a contract can
+	// say "the callback was run on the new group / on the receiver"
+	enc.declFun("cbarg", []string{SInt, SInt, SInt}, SInt)
+	for k, a := range x.Call.Args {
+		av := u.val(p, a)
+		if av.Sort == SInt {
+			p.assume(Eq(App("cbarg", SInt, f, Select(p.st.comps["calls"], f), IntLit(int64(k))), av))
+		}
+	}
 	// ghost: what the callback returned on its n-th call is cbresult_<sort>(f, n), so that a contract can say
 	// "the token holds what the callback returned"
 	if len(rs) == 1 {
